@@ -9,6 +9,9 @@ HARNESSES = {
 
 BLOCK_DECODE_KINDS = ['spec_decode_fails', 'spec_decode_mismatch', 'real_decoder_mismatch_*', 'crosscheck', 'sanitizer_abort', 'harness_crash', 'timeout', 'negative_return']
 
+NOT_APPLICABLE = {}
+HOOK_COMMITS = []
+
 PROPS = {
  'C01': dict(
     module='LZ4V.Properties.C01',
@@ -39,5 +42,31 @@ PROPS = {
     kinds=['destsize_zero', 'destsize_not_full_at_bound', 'ret_gt_cap', 'consumed_out_of_range', 'spec_decode_fails', 'spec_decode_mismatch', 'end_conditions',
            'real_decoder_mismatch_*', 'negative_return', 'sanitizer_abort', 'harness_crash', 'timeout'],
     note='arithmetic of the fillOutput adaptations over regenerated constants; HC destSize via correspondence only so far',
+ ),
+ 'C02': dict(
+    module='LZ4V.Properties.C02',
+    theorems=['LZ4V.C02.decompress_safe_memory_safe', 'LZ4V.C02.decompress_safe_partial_memory_safe', 'LZ4V.C02.usingDictEnv_wf',
+              'LZ4V.C02.decompress_safe_usingDict_memory_safe', 'LZ4V.C02.decompress_safe_partial_usingDict_memory_safe',
+              'LZ4V.Model.Decode.generic_total', 'LZ4V.Model.Decode.loop_good'],
+    steps=[dict(harness='dec', mode='c02'), dict(harness='dec0', mode='c02')],
+    kinds=['model_fault', 'model_mismatch_*', 'ret_gt_limit', 'ret_gt_capacity', 'partial_wrote_beyond_target', 'prefix_modified', 'dictionary_modified',
+           'sanitizer_abort', 'harness_crash', 'timeout'],
+    note='64-bit little-endian only; the model abstracts each n-byte memcpy to a checked byte-wise copy (overlap = fault); tie = correspondence of return value and output bytes on every call + ASan on exact-size buffers',
+ ),
+ 'C05': dict(
+    module='LZ4V.Properties.C05',
+    theorems=['LZ4V.C05.converse_fails_on_offset_zero', 'LZ4V.C05.spec_decode_is_exec_of_parse', 'LZ4V.C05.decoders_total'],
+    steps=[dict(harness='dec', mode='c05'), dict(harness='dec0', mode='c05'), dict(harness='dec', mode='c02')],
+    kinds=['valid_block_rejected', 'valid_block_wrong_bytes', 'false_success', 'accepts_offset_zero', 'fast_decoder_mismatch', 'model_fault', 'model_mismatch_*',
+           'sanitizer_abort', 'harness_crash', 'timeout'],
+    note='partial: refinement model<->specification not yet a theorem (FullStatement kept); decided per call by correspondence + verified validator; converse holds only modulo offset 0 (known finding F7a)',
+ ),
+ 'C16': dict(
+    module='LZ4V.Properties.C16',
+    theorems=['LZ4V.C16.partial_never_exceeds', 'LZ4V.C16.partial_usingDict_never_exceeds'],
+    steps=[dict(harness='dec', mode='c16'), dict(harness='dec0', mode='c16')],
+    kinds=['partial_wrong_size', 'partial_wrong_bytes', 'partial_wrote_beyond_target', 'ret_gt_limit', 'ret_gt_capacity', 'model_fault', 'model_mismatch_*',
+           'sanitizer_abort', 'harness_crash', 'timeout'],
+    note='partial: exact-prefix half decided by correspondence (every target for small contents); bound half is a theorem',
  ),
 }
